@@ -343,5 +343,30 @@ def X47():  # BREAKING: ODP units are numbered by position although the slide (a
 def X48():  # BREAKING: the sheet unit reports the 0-based index
     sub(DTP, "        return XlsxUnitMetadata(\n            unit_number=self.sheet_index,", "        return XlsxUnitMetadata(\n            unit_number=self.sheet_index - 1,")
 
+def R43():  # ImageMetadata: only the optional entries are (re)written by __post_init__ (the others are mirrored by __setattr__ already)
+    sub(DTP, """            unit_number=self.unit_number,
+            image_number=self.image_number,
+            content_type=self.content_type,
+            width=self.width,
+            height=self.height,
+        )
+
+    def __setattr__""", """            unit_number=self.unit_number,
+            width=self.width,
+            height=self.height,
+        )
+
+    def __setattr__""")
+def X49():  # BREAKING: the dict view shows width and height swapped
+    sub(DTP, """            width=self.width,
+            height=self.height,
+        )
+
+    def __setattr__""", """            width=self.height,
+            height=self.width,
+        )
+
+    def __setattr__""")
+
 globals()[sys.argv[1]]()
 print("applied", sys.argv[1])
